@@ -5,11 +5,13 @@ from harness import qcow2
 
 META = dict(
     level="model_checking",
-    bounds="cluster_bits 9..21 enumerated (quick: 9, 16, 21); version {2,3}; standard and extended L2; external data "
+    bounds="cluster_bits 9..21 enumerated (quick: 9, 16, 21); version {2,3}; standard L2 entries; external data "
            "file {no,yes}; backing {none, file of symbolic length, ALLOW_NO_BACKING_FILE}; request <= N clusters (quick 1, "
            "thorough 2) from any 512-aligned offset; virtual size, L1 size/offset, every L1/L2/bitmap word, backing length "
            "and the request symbolic (64-bit), so every table/cluster placement incl. offsets beyond 4 GiB is covered",
-    outside=["zstd compression (optional dependency not installed)", "encrypted images (refused, C12)",
+    outside=["extended L2 (sub-cluster) entries in the integrated read path: the reader's per-bit run computation forks "
+             "beyond reach (measured: > 40 min on 16 cores for one start sub-cluster); covered by the unit check of the "
+             "sub-cluster range functions (see DESIGN) and a concrete regression image", "zstd compression (optional dependency not installed)", "encrypted images (refused, C12)",
              "header extensions and snapshots (C14)", "requests longer than N clusters"],
     assumptions=["dissect.cstruct layouts as learned from the real parser each run",
                  "zlib is a deterministic function of (input range, window bits, output cap); well-formed compressed "
@@ -30,6 +32,9 @@ def tasks(tier):
     out.append(("read", dict(cluster_bits=16, n_clusters=n, backing="file")))
     out.append(("read", dict(cluster_bits=16, n_clusters=n, data_file=True)))
     out.append(("read", dict(cluster_bits=12, n_clusters=n, version=2)))
+    # extended L2: unit check of the sub-cluster range computation on a fully symbolic entry
+    for k in ((0, 1, 17, 31) if tier == "quick" else range(32)):
+        out.append(("range", dict(sc_from=k, data_file=(k % 2 == 1))))
     if tier == "thorough":
         out.append(("read", dict(cluster_bits=16, n_clusters=n, backing="allow_no")))
         out.append(("read", dict(cluster_bits=16, n_clusters=n, header_length=112)))
@@ -39,5 +44,99 @@ def tasks(tier):
 
 
 def run(hname, cfg, tier, seed):
+    if hname == "range":
+        return qcow2.subcluster_range_task("C01", cfg, tier, seed)
     return qcow2.read_task("C01", cfg, tier, seed)
-SPLIT_DEPTH = 10
+SPLIT_DEPTH = 12
+
+
+def precheck(tier, seed):
+    """Supplement (not the deciding step): the real reader against the oracle on concrete extended-L2 images built
+    here, because the integrated symbolic run excludes extended L2. A mismatch is a demonstrated violation."""
+    import io
+    import json
+    import os
+    import random
+    import struct
+
+    from dissect.hypervisor.disk.qcow2 import QCow2
+    from oracles import qcow2 as spec
+    from oracles.mem import ConcMem
+    from symx.files import SparseFile
+
+    rng = random.Random(1000 + seed)
+    cb = 14  # smallest cluster size that allows 512-byte sub-clusters
+    cs = 1 << cb
+    sub = cs // 32
+    P = spec.Params(cb, True, False)
+    n_images = 4 if tier == "quick" else 24
+    traces, viol = 0, []
+    samples = []
+    for n in range(n_images):
+        ncl = 6
+        img = bytearray((3 + ncl) * cs)
+        hdr = struct.pack(">IIQIIQIIQQIIQQQQII", spec.MAGIC, 3, 0, 0, cb, ncl * cs, 0, 1, cs, 0, 0, 0, 0, spec.INCOMPAT_EXTL2,
+                          0, 0, 4, 104)
+        img[: len(hdr)] = hdr
+        struct.pack_into(">Q", img, cs, 2 * cs | (1 << 63))
+        order = list(range(ncl))
+        rng.shuffle(order)
+        for c in range(ncl):
+            kind = rng.choice(["alloc", "alloc", "unalloc", "contig"])
+            host = (3 + order[c]) * cs
+            if kind == "contig" and c > 0:
+                host = (3 + order[c - 1] + 1) * cs if order[c - 1] + 1 < ncl else host
+            alloc = zero = 0
+            for b in range(32):
+                r = rng.random()
+                if kind != "unalloc" and r < 0.45:
+                    alloc |= 1 << b
+                elif r < 0.7:
+                    zero |= 1 << b
+            if rng.random() < 0.3:
+                alloc, zero = (0xFFFFFFFF, 0) if kind != "unalloc" else (0, rng.choice([0, 0xFFFFFFFF]))
+            e = (host | (1 << 63)) if kind != "unalloc" else 0
+            struct.pack_into(">QQ", img, 2 * cs + 16 * c, e, alloc | (zero << 32))
+        for k in range(3 * cs, len(img)):
+            img[k] = (k * 131 + (k >> 8) * 17 + n) & 0xFF
+        data = bytes(img)
+        mem = ConcMem(io.BytesIO(data))
+        for _ in range(6):
+            off = rng.randrange(0, ncl * cs // 512) * 512
+            ln = min(rng.choice([512, sub, 3 * sub, cs, 2 * cs + 512]), ncl * cs - off)
+            exp = bytes(int(spec.guest_byte(off + k, cs, 1, P, mem, mem)) for k in range(ln))
+            desc = dict(image=n, offset=off, length=ln)
+            import signal
+
+            def _timeout(signum, frame):
+                raise TimeoutError("read did not return within 20 s")
+
+            old_handler = signal.signal(signal.SIGALRM, _timeout)
+            try:
+                signal.alarm(20)
+                got = QCow2(io.BytesIO(data))._read(off, ln)
+            except Exception as ex:  # noqa: BLE001
+                got = None
+                desc["raised"] = type(ex).__name__
+            finally:
+                signal.alarm(0)
+                signal.signal(signal.SIGALRM, old_handler)
+            traces += 1
+            if got != exp:
+                bad_at = next((k for k in range(ln) if got is None or k >= len(got) or got[k] != exp[k]), 0)
+                pos = sorted({0, ln - 1, bad_at} | {rng.randrange(ln) for _ in range(64)})
+                full = dict(property="C01", harness="qcow2.extl2_images", entry="qcow2", params=dict(data_file=False, backing="none"),
+                            files=dict(img=dict(size=len(data), seed=0, patches=[[0, data.hex()]])),
+                            call=["_read", off, ln], expect=dict(len=ln, bytes=[[k, exp[k]] for k in pos]),
+                            why="extended L2 image: the real reader differs from the oracle", vars=desc)
+                os.makedirs(os.path.join(os.path.dirname(os.path.dirname(__file__)), "replays"), exist_ok=True)
+                path = os.path.join(os.path.dirname(os.path.dirname(__file__)), "replays", f"C01_extl2_image_{n}_{off}.json")
+                with open(path, "w") as fh:
+                    json.dump(full, fh)
+                viol.append(dict(what="extended-L2 image: real reader differs from the oracle", replay=path,
+                                 detail=str(desc), vars=desc))
+                break
+            if len(samples) < 2:
+                samples.append(dict(kind="concrete extended-L2 image", **desc, outcome="real code == oracle"))
+    return dict(errors=[], violations=viol, traces=traces, samples=samples,
+                summary=f"{n_images} concrete extended-L2 images x 6 reads compared with the oracle")
